@@ -18,13 +18,19 @@
 
 package compose
 
+import "sync/atomic"
+
 // verifTaskHook, when set (tests built with -tags verif only), is called at the hand-off points of
 // the task manager: it may record the event and yield or delay to widen the window that follows.
-// It must be set before any run starts and not changed while runs are in flight.
-var verifTaskHook func(point string, tm *taskManager, ta *task)
+// Executor goroutines may still pass a hook point after their run has returned, so it is read atomically.
+var verifTaskHook atomic.Value // of verifTaskHookFn
+
+type verifTaskHookFn func(point string, tm *taskManager, ta *task)
+
+func setVerifTaskHook(f verifTaskHookFn) { verifTaskHook.Store(f) }
 
 func verifPoint(point string, tm *taskManager, ta *task) {
-	if h := verifTaskHook; h != nil {
+	if h, _ := verifTaskHook.Load().(verifTaskHookFn); h != nil {
 		h(point, tm, ta)
 	}
 }
